@@ -6,6 +6,7 @@ package mergep
 
 import (
 	"context"
+	"encoding/binary"
 	"fmt"
 	"sort"
 	"strings"
@@ -39,6 +40,8 @@ type Hist struct {
 	// EmptyVals: shadow mode only - include live empty values (the known-finding sub-family);
 	// native histories always include them
 	EmptyVals bool `json:"emptyvals,omitempty"`
+	// IntKeys: one more DBI "di" with MDB_INTEGERKEY and 4-byte keys whose byte order differs from their integer order
+	IntKeys bool `json:"intkeys,omitempty"`
 }
 
 func (h Hist) ID() string {
@@ -123,8 +126,12 @@ func pairKey(a, b inst.Ver) string {
 func (f *fleet) applyApp(op appOp) error {
 	x := f.insts[op.Inst]
 	_, err := lmdbx.Update(x.Env, func(txn *lmdb.Txn) error {
+		var cf uint
+		if op.DBI == "di" {
+			cf = lmdb.IntegerKey
+		}
 		if f.h.Native {
-			return inst.NativePut(txn, op.DBI, []byte(op.Key), op.TS, op.Del, []byte(op.Val))
+			return inst.NativePutFlags(txn, op.DBI, cf, []byte(op.Key), op.TS, op.Del, []byte(op.Val))
 		}
 		if op.Clear {
 			d, err := lmdbx.ReadDBI(txn, op.DBI)
@@ -141,7 +148,7 @@ func (f *fleet) applyApp(op appOp) error {
 		if op.Del {
 			return lmdbx.Del(txn, op.DBI, []byte(op.Key))
 		}
-		return lmdbx.Put(txn, op.DBI, 0, []byte(op.Key), []byte(op.Val))
+		return lmdbx.Put(txn, op.DBI, cf, []byte(op.Key), []byte(op.Val))
 	})
 	if err == nil && f.h.Native {
 		v := inst.Ver{TS: op.TS, Del: op.Del, Val: op.Val}
@@ -150,7 +157,7 @@ func (f *fleet) applyApp(op appOp) error {
 		}
 		f.addVersion(op.DBI, op.Key, v)
 	}
-	f.trace = append(f.trace, fmt.Sprintf("app i%d %s[%s] del=%v clear=%v val=%q ts=%d", op.Inst, op.DBI, op.Key, op.Del, op.Clear, trunc(op.Val), op.TS))
+	f.trace = append(f.trace, fmt.Sprintf("app i%d %s[%q] del=%v clear=%v val=%q ts=%d", op.Inst, op.DBI, op.Key, op.Del, op.Clear, trunc(op.Val), op.TS))
 	return err
 }
 
@@ -504,6 +511,10 @@ func runHistory(h Hist, env *runner.Env, res *runner.Result, which string, sched
 	ar := rng.New(h.Seed)         // application history
 	sr := rng.New(schedSeed ^ 77) // interleaving of uploads/merges
 	dbis := []string{"d0", "d1", "d2"}[:h.NDBI]
+	if h.IntKeys {
+		dbis = append(dbis, "di")
+	}
+	intPool := []uint32{0, 1, 255, 256, 65536, 1 << 31, 1<<32 - 1}
 	// per instance: the highest timestamp the application wrote per key (monotone writes)
 	localTS := make([]map[string]uint64, h.NInst)
 	wrote := make([]map[string]bool, h.NInst)
@@ -526,6 +537,11 @@ func runHistory(h Hist, env *runner.Env, res *runner.Result, which string, sched
 		// the application history is generated in lock-step so that it is schedule independent
 		if ar.Chance(3, 5) {
 			op := appOp{Inst: ar.Intn(h.NInst), DBI: dbis[ar.Intn(len(dbis))], Key: fmt.Sprintf("k%d", ar.Intn(h.NKeys))}
+			if op.DBI == "di" {
+				var kb [4]byte
+				binary.LittleEndian.PutUint32(kb[:], intPool[ar.Intn(len(intPool))])
+				op.Key = string(kb[:])
+			}
 			op.Del = ar.Intn(100) < h.DelBias
 			op.Val = valPool[ar.Intn(len(valPool))]
 			if op.Val == "" && !h.Native && !h.EmptyVals {
